@@ -20,9 +20,9 @@ from holopy.scattering import calc_holo, Sphere, Spheres, Mie, MieLens
 from holopy.scattering.errors import MissingParameter
 
 ID = "C12"
-LEAN_MODULES = ["HoloProps.C12", "HoloProps.C14Gen"]
-MODEL_MODULES = ["HoloModel.Posterior", "HoloModel.Prior", "HoloModel.ExtArith", "HoloGen.PyPrior"]
-GEN_DEPS = ["PyPrior"]
+LEAN_MODULES = ["HoloProps.C12", "HoloProps.C14Gen", "HoloProps.C12Gen"]
+MODEL_MODULES = ["HoloModel.Posterior", "HoloModel.Prior", "HoloModel.ExtArith", "HoloGen.PyPrior", "HoloGen.PyModel"]
+GEN_DEPS = ["PyPrior", "PyModel"]
 NOT_PROVED = [
     "per-channel noise with unequal pixel counts per channel: N*mean(log sd) is then not the Gaussian normaliser (theorem C12_per_pixel_constant covers equal levels; the per-channel formula is tied by correspondence)",
     "the forward hologram equals the public calc_holo for the substituted scatterer/theory/optics: search (the substitution itself is C11)",
